@@ -2,7 +2,7 @@ void h_og_requestChunk(void)
 {
     struct original_grid *m; size_t *n;
     g_request = nondet_size_t(); g_adds = nondet_unsigned(); g_removes = nondet_unsigned(); g_recycles = nondet_unsigned(); g_allocs = nondet_unsigned();
-    g_alloc_result = nondet_ulong(); g_next = nondet_int(); g_up = nondet_int(); g_down = nondet_int(); ghost_g = nondet_size_t();
+    g_alloc_result = nondet_ulong(); g_next = nondet_int(); g_up = nondet_int(); g_down = nondet_int(); ghost_g = nondet_size_t(); g_refiled = 0;
     original_grid__requestChunk(m, n);
     CANARY();
 }
